@@ -61,6 +61,7 @@ type ProcContract struct {
 	Subs       map[string]*ProcContract // "go0", "fn1"
 	Parent     *ProcContract
 	Opts       map[string]string
+	LoopCount  int // loops N: number of loops of the body when the contract was written (0: not recorded)
 	GSets      [][3]string // lhs, rhs, exit ("" any, "K" the K-th return statement, "end" falling off the end)
 	File       string
 	Line       int
@@ -426,6 +427,8 @@ func ParseContractFile(path string) (*ContractFile, error) {
 					return nil, fmt.Errorf("%s:%d: gset lhs = rhs", path, n)
 				}
 				cur.GSets = append(cur.GSets, [3]string{strings.TrimSpace(l), strings.TrimSpace(r), at})
+			case "loops":
+				fmt.Sscanf(rest, "%d", &cur.LoopCount)
 			case "pure":
 				cur.Pure = true
 			case "inline":
